@@ -21,11 +21,11 @@ _c("measure",
 
 _c("interval",
    params={"key": "str", "start_note": "str", "interval": "int"},
-   requires="is_key(key) and len(start_note) >= 1",
+   requires="len(key) >= 1 and len(start_note) >= 1",
    returns="str",
    result_is="key_notes(key)[(lidx(start_note[0]) - lidx(key_notes(key)[0][0]) + interval) % 7]",
-   raises={"KeyError": "not is_name(start_note)"},
-   split=[{"bind": {"key": k}} for k in KEYS30],
+   raises={"KeyError": "not is_name(start_note)", "NoteFormatError": "is_name(start_note) and not is_key(key)"},
+   split=[{"bind": {"key": k}} for k in KEYS30] + [{"assume": "not is_key(key)"}],
    properties=["C04"], battery="key_note_step")
 
 for _i, _nm in enumerate(["second", "third", "fourth", "fifth", "sixth", "seventh"]):
@@ -212,3 +212,14 @@ _c("determine",
    ],
    split=[{"assume": "note1[0] == %r and note2[0] == %r" % (a, b)} for a in "CDEFGAB" for b in "CDEFGAB"],
    properties=["C03"], battery="name_pairs_flag")
+
+# the diatonic unison looks its note up IN THE KEY NAMED BY THE NOTE ITSELF (the key argument is ignored): for the 15
+# major-key tonics it is the identity; for every other text the key lookup refuses it
+_MAJ = [k for k in KEYS30 if k[0].isupper()]
+_c("unison",
+   params={"note": "str", "key": "None"}, requires="len(note) >= 1", returns="str",
+   ensures=[("the-note-itself", "result == note")],
+   raises={"KeyError": "not is_name(note)", "NoteFormatError": "is_name(note) and not is_key(note)"},
+   variants=[dict(name="default", params={"note": "str"})],
+   split=[{"bind": {"note": k}} for k in KEYS30] + [{"assume": "not is_key(note)"}],
+   properties=["C04"], battery="unison_notes")
